@@ -14,7 +14,7 @@ for d in sorted(Path('/verif/seeded').iterdir()):
     notes = (d / 'notes.md').read_text() if (d / 'notes.md').exists() else ''
     title = next((l.strip('# ').strip() for l in notes.splitlines() if l.strip()), '')
     title = re.sub(r'^(C\d\d\s*/?\s*m\d\s*[-—:–]*\s*|m\d\s*[-—:–]+\s*)', '', title)[:110]
-    rows.append((d.name, ', '.join(files), ', '.join(funcs)[:60], title, ', '.join(meta['detected_by']) or 'NOT DETECTED', meta.get('note', '')[:140]))
+    rows.append((d.name, ', '.join(files), ', '.join(funcs)[:60], title, ', '.join(meta['detected_by']) or 'NOT DETECTED', meta.get("note", "")[:400]))
 print('| seed | file (function) | change | caught by | how |')
 print('|------|-----------------|--------|-----------|-----|')
 for n, f, fn, t, det, note in rows:
